@@ -481,7 +481,11 @@ func writeEvidence(chk *Check, p *ParentCtx, tier string, seed uint64, wall floa
 	}
 	sort.Strings(kh)
 	cov["known_findings_hit"] = kh
-	cov["inconclusive"] = p.Inconclusive
+	inc := p.Inconclusive
+	if inc == nil {
+		inc = []string{}
+	}
+	cov["inconclusive"] = inc
 	ev := map[string]interface{}{
 		"property_id": chk.ID,
 		"tier":        tier,
